@@ -22,9 +22,9 @@ PROPERTY = "C19"
 # (fixes 8dc20cb, c4ae818 = the former /verif/pending_fixes/C19-*.diff).
 INT_RAISES = 0   # F10: AnsiDecoder.decode_line lets int()'s ValueError out ("\x1b[²m", > 4300 digits)
 FLUSH_RAW = 0    # F20: FileProxy.flush prints the pending text as a str (markup / emoji / highlight on, not decoded)
-EMPTY_IGNORED = 1      # F27: an omitted SGR parameter is dropped: "\x1b[m" does not reset (ECMA-48: omitted = 0)
-RESET_DROPS_LINK = 1   # F28: SGR 0 also drops the OSC 8 hyperlink
-OFF_SINGLE = 1         # F29: 24 / 25 leave the double underline / rapid blink on
+EMPTY_IGNORED = 0      # F27: an omitted SGR parameter is dropped: "\x1b[m" does not reset (ECMA-48: omitted = 0)
+RESET_DROPS_LINK = 0   # F28: SGR 0 also drops the OSC 8 hyperlink
+OFF_SINGLE = 0         # F29: 24 / 25 leave the double underline / rapid blink on
 FLAGS = "".join(str(int(bool(x))) for x in (INT_RAISES, FLUSH_RAW, EMPTY_IGNORED, RESET_DROPS_LINK, OFF_SINGLE))
 # development aid only (running against another checkout, VERIF_REPO=<worktree>): VERIF_C19_FLAGS=00000 overrides the constants above
 FLAGS = os.environ.get("VERIF_C19_FLAGS") or FLAGS
